@@ -510,16 +510,6 @@ val gen_CALL : char list
 
 val gen_APPLY : char list
 
-val gen_min_literal_length : n
-
-val gen_max_literal_length : n
-
-val gen_len_ok : n -> bool
-
-val gen_REQUIRE : char list
-
-val gen_REGEXP : char list
-
 val gen_prologue_template : char list
 
 val gen_prologue_entry_format : char list
@@ -701,6 +691,12 @@ type lit_entry = { le_value : char list; le_span : sp;
                    le_ident : char list option }
 
 val str_value : node -> char list option
+
+val documented_len_ok : n -> bool
+
+val documented_require : char list
+
+val documented_regexp : char list
 
 val entry_of : node -> char list option -> lit_entry list
 
@@ -1203,6 +1199,8 @@ val dup_effects : char list -> node -> node -> (n * n) list
 
 type site_cfg = { sc_plus : bool; sc_tpl : bool; sc_methods : char list list;
                   sc_lit_callers : char list list }
+
+val documented_lit_callers : char list list
 
 type site = { s_key : sp; s_what : char list; s_class : char list }
 
